@@ -431,6 +431,7 @@ class C05(Prop):
         anyp = v1_inputs(rng, tier, k=2)[:: (3 if tier == "quick" else 1)]
         for n in (106, 107, 108, 200):
             anyp += [b"a" * n, b"PROXY UNKNOWN " + b"b" * n, b"PROXY TCP4 " + b"1" * n + b"\r\n", b"\xff" * n]
+        self._flagops = set()
         for x in anyp:
             for e in ("v1b", "auto") + (("v1s",) if V.valid_utf8(x) else ()):
                 ops.append("%s %s" % (e, C.hexs(x)))
@@ -440,9 +441,13 @@ class C05(Prop):
             self._meta.append(("flags", b"", 0))
             ops.append("auto " + o.split(" ", 1)[1])
             self._meta.append(("flags", b"", 0))
+        # which verdict these inputs get is not C05's business (only that the two flags are complementary):
+        # they are not compared with the model unless they also occur as a prefix of an accepted header
+        prefix_ops = set(o for o, m in zip(ops, self._meta) if m[0] != "flags")
+        self._flagops = set(o for o, m in zip(ops, self._meta) if m[0] == "flags") - prefix_ops
         return ops
 
-    def project(self, op, line):
+    def view(self, op, line):
         if op.startswith("auto"):
             tag, r, ai, ac = auto_res(line)
             return (cls(r), ai, ac)
@@ -451,10 +456,15 @@ class C05(Prop):
         r = res1(line)
         return (cls(r), r.get("inc"), r.get("comp"))
 
+    def project(self, op, line):
+        if op in getattr(self, "_flagops", ()):
+            return None
+        return self.view(op, line)
+
     def relation(self, ops, impl):
         out = []
         for op, il, (ver, h, c) in zip(ops, impl, self._meta):
-            p = self.project(op, il)
+            p = self.view(op, il)
             items = p if op.startswith("v1s") else (p,)
             if ver == "flags":
                 for (k, inc, comp) in items:
